@@ -383,8 +383,8 @@ def run(idx: Index, rep: Report, tier: str):
     n1, n2 = (norm(e) for e in unp[0].targets[0].elts)
     T1, T2 = sp.Symbol("h1_spinorb"), sp.Symbol("h2_spinorb")
     try:
-        a1 = symx.to_sympy(ctor[0].args[1], {n1: T1, n2: T2})
-        a2 = symx.to_sympy(ctor[0].args[2], {n1: T1, n2: T2})
+        a1 = symx.to_sympy(resolve_local(h.node, ctor[0].args[1]) if norm(ctor[0].args[1]) not in (n1, n2) else ctor[0].args[1], {n1: T1, n2: T2})
+        a2 = symx.to_sympy(resolve_local(h.node, ctor[0].args[2]) if norm(ctor[0].args[2]) not in (n1, n2) else ctor[0].args[2], {n1: T1, n2: T2})
     except symx.Untranslatable as e:
         raise AnalysisError(f"_get_fermionic_hamiltonian: InteractionOperator arguments not understood: {e}")
     ok = [norm(x) for x in unp[0].value.args] == ["one_body_integrals", "two_body_integrals"] and symx.equal(a1, T1) and symx.equal(a2, T2 / 2)
